@@ -7,7 +7,7 @@ REPO = os.environ.get("LAZE_REPO", "/repo")
 LEAN = os.path.join(VERIF, "lean")
 BUILD = os.path.join(VERIF, ".build")
 LAZE = os.path.join(BUILD, "target", "release", "laze")
-MODEL = os.path.join(LEAN, ".lake", "build", "bin", "lazemodel")
+MODEL = os.environ.get("LAZE_MODEL_BIN", os.path.join(LEAN, ".lake", "build", "bin", "lazemodel"))
 NCPU = os.cpu_count() or 4
 
 ALLOWED_AXIOMS = {"propext", "Classical.choice", "Quot.sound"}
